@@ -69,4 +69,66 @@ def signBit32 : BitVec 32 := 2147483648#32
 def inf32 : BitVec 32 := 2139095040#32
 def nan32 : BitVec 32 := 2143289344#32
 
+
+/-! ## The reference semantics: IEEE-754 values as rationals and round-to-nearest-even
+
+Used only to STATE the full property (`ieee754_statement` in Props/C05.lean) and in
+kernel-evaluated examples; the theorems proved so far do not depend on it. -/
+
+/-- `2^k` for an integer `k` -/
+def pow2 (k : Int) : Rat := (2 : Rat) ^ k
+
+/-- an IEEE-754 binary interchange format: fraction bits, exponent bits -/
+structure Fmt where
+  mb : Nat
+  eb : Nat
+
+def binary64 : Fmt := ⟨52, 11⟩
+def binary32 : Fmt := ⟨23, 8⟩
+
+namespace Fmt
+def bias (F : Fmt) : Int := 2^(F.eb - 1) - 1
+def expOnes (F : Fmt) : Nat := 2^F.eb - 1
+def signWeight (F : Fmt) : Nat := 2^(F.mb + F.eb)
+def infBits (F : Fmt) : Nat := F.expOnes * 2^F.mb
+
+def expField (F : Fmt) (bits : Nat) : Nat := bits / 2^F.mb % 2^F.eb
+def fracField (F : Fmt) (bits : Nat) : Nat := bits % 2^F.mb
+def isFinite (F : Fmt) (bits : Nat) : Prop := F.expField bits ≠ F.expOnes
+
+/-- the real number denoted by a finite bit pattern -/
+def val (F : Fmt) (bits : Nat) : Rat :=
+  let m := F.fracField bits
+  let e := F.expField bits
+  let mag : Rat :=
+    if e = 0 then (m : Rat) * pow2 (1 - F.bias - F.mb)
+    else ((2^F.mb + m : Nat) : Rat) * pow2 ((e : Int) - F.bias - F.mb)
+  if bits / F.signWeight % 2 = 1 then -mag else mag
+
+/-- round-to-nearest, ties-to-even, of a non-negative rational: the magnitude bits
+(gradual underflow; overflow gives the Inf pattern) -/
+def rndMag (F : Fmt) (a : Rat) : Nat :=
+  if a = 0 then 0 else
+  let k : Int := (Nat.log2 a.num.toNat : Int) - (Nat.log2 a.den : Int)
+  let e : Int := if pow2 k ≤ a then k else k - 1          -- 2^e ≤ a < 2^(e+1)
+  let E : Int := max e (1 - F.bias)                        -- binade whose spacing applies
+  let n : Rat := a / pow2 (E - F.mb)                       -- in units of that spacing
+  let q0 : Nat := n.floor.toNat
+  let r : Rat := n - (q0 : Rat)
+  let q1 : Nat := if r > 1/2 ∨ (r = 1/2 ∧ q0 % 2 = 1) then q0 + 1 else q0
+  min ((E + F.bias - 1).toNat * 2^F.mb + q1) F.infBits
+
+/-- round-to-nearest-even of a non-zero rational, sign included -/
+def rnd (F : Fmt) (x : Rat) : Nat :=
+  (if x < 0 then F.signWeight else 0) + F.rndMag (if x < 0 then -x else x)
+end Fmt
+
+def val64 (f : BitVec 64) : Rat := binary64.val f.toNat
+def val32 (f : BitVec 32) : Rat := binary32.val f.toNat
+def rnd64 (x : Rat) : BitVec 64 := BitVec.ofNat 64 (binary64.rnd x)
+def rnd32 (x : Rat) : BitVec 32 := BitVec.ofNat 32 (binary32.rnd x)
+
+/-- truncation toward zero of a rational, as an integer -/
+def truncRat (x : Rat) : Int := if x < 0 then -((-x).floor) else x.floor
+
 end GnoVerif.C05
